@@ -342,9 +342,13 @@ def check_estimator(acc, name, kind, factory, opts, depth):
                     if r2 != res:
                         acc.violation(name, "failure_depends_on_history", "after %s: %s, but a fresh object driven through %s: %s" % (
                             _fmt(h2), res, _fmt(suffix), r2), wit, {"last_op": op[0], "exc": res}, rep, size)
-                k = F.fp((est2, owned2))
+                # merge key: implementation state (values + sharing of mutable sub-objects) x state of the reference model (documented
+                # suffix since the last fit, parameter changes) - two histories are merged only if both agree
+                lf = max([i for i, o in enumerate(h2) if o[0] == "fit"], default=None)
+                ref_key = (tuple(o for o in (h2[lf:] if lf is not None else h2) if o[0] not in ("predict", "set")), tuple(o for o in h2 if o[0] == "set"))
+                k = (F.fp_merge((est2, owned2)), repr(ref_key))
                 acc.case((name, h2))
-                acc.outcome((name, k))
+                acc.outcome((name, F.fp((est2, owned2))))
                 if res == "ok" or res.startswith("ok"):
                     if k not in seen:
                         seen.add(k)
